@@ -1,0 +1,17 @@
+//go:build !verif
+
+// Package vhook holds the verification hooks of qiloop. Without the
+// "verif" build tag every function is empty and gets inlined away.
+package vhook
+
+// Enabled reports if the hooks are compiled in.
+const Enabled = false
+
+// ID returns a small process-wide identifier for the object p.
+func ID(p interface{}) int { return 0 }
+
+// Emit records an event of the instance inst of component comp.
+func Emit(comp string, inst interface{}, ev string, kv ...interface{}) {}
+
+// Gate blocks the caller if a gate is installed for point.
+func Gate(point string, kv ...interface{}) {}
